@@ -82,7 +82,8 @@ private lemma combs_dropOne : ∀ (l : List Nat), l ≠ [] → Py.combsNat l (l.
     (forward). -/
 theorem sw_start_generated (p : Nat) :
     Gen.sw_backward_start p = startCols .backward p ∧
-    Gen.sw_forward_start p = (startCols .forward p, List.range p) := ⟨rfl, rfl⟩
+    Gen.sw_forward_start p = (startCols .forward p, List.range p) := by
+  constructor <;> simp [Gen.sw_backward_start, Gen.sw_forward_start, startCols]
 
 /-- **The column sets a pass fits, as regenerated**, are the model's alternatives: backward, every subset with one
     column dropped, in `itertools.combinations` order (`dropOne`); forward, the current set extended by each selectable
@@ -256,12 +257,12 @@ theorem search_generated (d : Dir) (aic : List Nat → Option F) (p : Nat) :
     genSearch d aic p = search d aic p := by
   unfold genSearch search
   cases d
-  · have h0 : (genStart .backward p).1 = startCols .backward p := rfl
+  · have h0 : (genStart .backward p).1 = startCols .backward p := (sw_start_generated p).1
     rw [h0]
     cases aic (startCols .backward p) with
     | none => rfl
     | some a0 => simp only; rw [loop_backward_generated]
-  · have h0 : (genStart .forward p) = (startCols .forward p, List.range p) := rfl
+  · have h0 : (genStart .forward p) = (startCols .forward p, List.range p) := (sw_start_generated p).2
     rw [h0]
     cases aic (startCols .forward p) with
     | none => rfl
